@@ -195,6 +195,8 @@ dt_get_mon(struct dt_d_s that)
 		return that.bizda.m;
 	case DT_YWD:
 		return __ywd_get_mon(that.ywd);
+	case DT_YD:
+		return __yd_get_md(that.yd).m;
 	case DT_UMMULQURA:
 		return that.ummulqura.m;
 	default:
@@ -217,8 +219,10 @@ dt_get_wday(struct dt_d_s that)
 		return __bizda_get_wday(that.bizda);
 	case DT_YWD:
 		return __ywd_get_wday(that.ywd);
+	case DT_YD:
+		return __yd_get_wday(that.yd);
 	case DT_UMMULQURA:
-		;
+		return __daisy_get_wday(dt_conv_to_daisy(that));
 	default:
 	case DT_DUNK:
 		return DT_MIRACLEDAY;
@@ -452,6 +456,13 @@ dt_get_quarter(struct dt_d_s that)
 	case DT_BIZDA:
 		m = that.bizda.m;
 		break;
+	case DT_DAISY:
+	case DT_YWD:
+	case DT_YD:
+		if ((m = dt_dconv(DT_YMD, that).ymd.m) > 0) {
+			break;
+		}
+		/*@fallthrough@*/
 	default:
 	case DT_DUNK:
 		return 0;
